@@ -208,6 +208,12 @@ def run(tier):
             # names that do not resolve: the failure happens before any statement runs (scope errors)
             for j in range(0, len(evals), 9):
                 evals[j] = {"src": "zz_new_%d = 1\nzz_other_%d = undefined_name_%d\n" % (j, j, j), "file": evals[j]["file"]}
+        if i % 4 == 1:
+            # evaluations ended by the host (cancellation) are failures like any other: the end-of-evaluation check
+            # (short item) and the periodic check (long item) must both leave the evaluator and the module usable
+            for j in range(3, len(evals), 11):
+                body = rng.choice(["cancel()\n", "cancel()\nfor _i in range(2500):\n    pass\n", "def _c():\n    cancel()\n    return [x for x in range(1500)]\n_c()\n"])
+                evals[j] = {"src": body, "file": evals[j]["file"], "host_ends": True}
         c = {"id": "h%d" % i, "cfg": {"dialect": "internal", "reuse_eval": i % 2 == 1, "probe": PROBE},
              "units": [{"file": "pre.star", "src": PRELUDE, "evals": evals, "freeze": i % 3 == 0, "snapshot": "all" if i % 3 == 0 else None}]}
         cases.append(c)
@@ -281,6 +287,9 @@ def run(tier):
                     k = e[4].get("kind")
                     st["kinds"][k] = st["kinds"].get(k, 0) + 1
                     distinct.add(re.sub(r"`[^`]*`|[0-9]+", "_", e[4].get("msg", ""))[:80])
+                    if "ancel" in e[4].get("msg", "") and files.get(file, "").startswith(("cancel()", "def _c()")):
+                        st["host_ended"] = st.get("host_ended", 0) + 1
+                        continue  # ended by the host: no source position is demanded, everything after it is
                     judge_err(rep, e[4], "%s item %d (%s): %s" % (c["id"], idx, file, files.get(file, "")[:160].strip()), c, files, flavor, st)
                 elif kind == "parse_err":
                     st["err"] += 1
@@ -295,6 +304,7 @@ def run(tier):
         "items_failed": st["err"],
         "errors_with_checked_location": st["located_errors"],
         "probe_evaluations": st["probes"],
+        "items_ended_by_host_cancellation": st.get("host_ended", 0),
         "error_kinds": st["kinds"],
         "flavors": [f for f, _ in flavors],
     }
